@@ -10,6 +10,7 @@ import (
 	"fmt"
 	"hash/fnv"
 	"os"
+	"runtime/pprof"
 	"sort"
 	"strings"
 	"time"
@@ -43,8 +44,10 @@ type result struct {
 var thorough bool
 
 type tally struct {
-	res  result
-	seen map[uint64]struct{}
+	res         result
+	seen        map[uint64]struct{}
+	sampleHdr   int // which case of the job becomes its sample (varied over jobs so that the samples differ)
+	sampleShape string
 }
 
 func newTally() *tally {
@@ -73,15 +76,38 @@ func (t *tally) emit(c *caseD) {
 	}
 	if o.v != nil {
 		t.res.Count[o.v.Sig]++
-		if old, ok := t.res.Viol[o.v.Sig]; !ok || o.v.Rank < old.Rank {
+		if old, ok := t.res.Viol[o.v.Sig]; !ok || simpler(o.v, &old) {
 			t.res.Viol[o.v.Sig] = *o.v
 		}
-	} else if len(t.res.Samples) < 1 && len(c.Vals) >= 2 && c.Hdr == hdrOne {
+	} else if len(t.res.Samples) < 1 && (len(c.Vals) >= 2 || c.Lane == "err" || c.Lane == "jerr") && c.Hdr == t.sampleHdr && (c.Shape == t.sampleShape || t.sampleShape == "") {
 		t.res.Samples = append(t.res.Samples, fmt.Sprintf("%s -> %q", c.String(), trunc(string(o.data), 120)))
 	}
 }
 
 var bools = []bool{false, true}
+
+var allHdr = []int{hdrNone, hdrOne, hdrTyped, hdrShared, hdrPreset, hdrPresetOff}
+
+// hdrsFor: the header sets a list is crossed with under default settings. The sets whose content is
+// independent of the values (one-string, typed, preset-simple-false) meet lists of 3 values in the thorough
+// tier only; none, shared-with-args and preset-simple meet every list.
+func hdrsFor(l []int) []int {
+	if len(l) <= 2 || thorough {
+		return allHdr
+	}
+	return []int{hdrNone, hdrShared, hdrPreset}
+}
+
+// hdrsForSettings: the header sets crossed with the 119 non-default decoder settings.
+func hdrsForSettings(l []int, ifaceDest bool) []int {
+	switch {
+	case !ifaceDest:
+		return []int{hdrTyped}
+	case len(l) > 2, len(l) == 2 && !thorough:
+		return []int{hdrNone}
+	}
+	return []int{hdrNone, hdrTyped}
+}
 
 // lists enumerates the value lists of a job: [I1, I2] and [I1, I2, x] for every active x.
 func lists(j job, act []int, f func(l []int)) {
@@ -121,12 +147,21 @@ func crossSettings(alpha []aval, l []int, ifaceDest bool) bool {
 func runJob(j job) result {
 	t := newTally()
 	hact, jact := active(hvals, thorough), active(jvals, thorough)
+	if k := j.I1 + j.I2; k >= 0 {
+		t.sampleHdr = []int{hdrOne, hdrNone, hdrShared, hdrTyped}[k%4]
+		switch j.Lane {
+		case "req", "jreq":
+			t.sampleShape = []string{"exact", "iface", "variadic-one", "ptr", "fewer-params", "missing", "conv"}[k%7]
+		case "resp", "jresp":
+			t.sampleShape = []string{"exact", "iface", "more-types", "ptr", "conv"}[k%5]
+		}
+	}
 	switch j.Lane {
 	case "req":
 		lists(j, hact, func(l []int) {
 			for _, shape := range reqShapes {
 				for _, cs := range bools {
-					for hdr := 0; hdr < numHdr; hdr++ {
+					for _, hdr := range hdrsFor(l) {
 						t.emit(&caseD{Lane: "req", Vals: l, Shape: shape, Hdr: hdr, CS: cs})
 						if len(l) <= 1 {
 							t.emit(&caseD{Lane: "req", Vals: l, Shape: shape, Hdr: hdr, CS: cs, Svc: "jsonrpc-fallback"})
@@ -138,10 +173,7 @@ func runJob(j job) result {
 				}
 				for _, s := range allSettings[1:] {
 					for _, cs := range bools {
-						for _, hdr := range []int{hdrNone, hdrTyped} {
-							if hdr == hdrNone && !reqShapesIface[shape] {
-								continue
-							}
+						for _, hdr := range hdrsForSettings(l, reqShapesIface[shape]) {
 							t.emit(&caseD{Lane: "req", Vals: l, Shape: shape, Hdr: hdr, CS: cs, Cfg: s})
 						}
 					}
@@ -160,10 +192,14 @@ func runJob(j job) result {
 			if i2 >= 0 {
 				l = append(l, i2)
 			}
+			nameHdrs := allHdr
+			if len(l) == 2 && !thorough {
+				nameHdrs = []int{hdrNone, hdrShared}
+			}
 			for n := 1; n < len(names); n++ {
 				for _, shape := range []string{"exact", "iface", "variadic-iface", "missing"} {
 					for _, cs := range bools {
-						for hdr := 0; hdr < numHdr; hdr++ {
+						for _, hdr := range nameHdrs {
 							t.emit(&caseD{Lane: "req", Vals: l, Shape: shape, Hdr: hdr, CS: cs, Name: n})
 						}
 					}
@@ -174,9 +210,14 @@ func runJob(j job) result {
 		lists(j, hact, func(l []int) {
 			for _, shape := range respShapes {
 				for _, ss := range bools {
-					for hdr := 0; hdr < numHdr; hdr++ {
+					for _, hdr := range hdrsFor(l) {
 						for _, cs := range bools {
 							for _, dbg := range bools {
+								// the client's Simple and the service's Debug play no part in decoding a value: they are
+								// crossed for lists of <= 2 values only
+								if (cs || dbg) && len(l) > 2 {
+									continue
+								}
 								t.emit(&caseD{Lane: "resp", Vals: l, Shape: shape, Hdr: hdr, SS: ss, CS: cs, Debug: dbg})
 							}
 						}
@@ -190,10 +231,7 @@ func runJob(j job) result {
 				}
 				for _, s := range allSettings[1:] {
 					for _, ss := range bools {
-						for _, hdr := range []int{hdrNone, hdrTyped} {
-							if hdr == hdrNone && !respShapesIface[shape] {
-								continue
-							}
+						for _, hdr := range hdrsForSettings(l, respShapesIface[shape]) {
 							t.emit(&caseD{Lane: "resp", Vals: l, Shape: shape, Hdr: hdr, SS: ss, Cfg: s})
 						}
 					}
@@ -307,6 +345,21 @@ func main() {
 		replay(os.Args[2])
 		return
 	}
+	if len(os.Args) > 4 && os.Args[1] == "--job" { // debugging aid: run one job in-process, optionally under the CPU profiler
+		var j job
+		j.Lane = os.Args[2]
+		fmt.Sscan(os.Args[3], &j.I1)
+		fmt.Sscan(os.Args[4], &j.I2)
+		if p := os.Getenv("C07_CPUPROFILE"); p != "" {
+			f, _ := os.Create(p)
+			pprof.StartCPUProfile(f)
+			defer pprof.StopCPUProfile()
+		}
+		t0 := time.Now()
+		r := runJob(j)
+		fmt.Printf("%+v: %d cases, %d skipped, %d distinct, %d signatures, %.2fs\n", j, r.Cases, r.Skipped, r.Distinct, len(r.Viol), time.Since(t0).Seconds())
+		return
+	}
 	if len(os.Args) > 1 && os.Args[1] == "--dump" {
 		for i, a := range hvals {
 			fmt.Println(i, a.Label, a.Core, a.Canon)
@@ -320,7 +373,8 @@ func main() {
 	jobs := makeJobs()
 	var cases, skipped, distinct, noValue int64
 	byLane := map[string]int64{}
-	samples := report.NewSamples(16)
+	samples := report.NewSamples(24)
+	sampled := map[string]int{}
 	best := map[string]viol{}
 	count := map[string]int{}
 	shard.Run(jobs, shard.Options{JobTimeout: 300 * time.Second}, func(i int, raw json.RawMessage, fail *shard.Failure) {
@@ -346,12 +400,13 @@ func main() {
 			byLane[k] += n
 		}
 		for _, s := range r.Samples {
-			if i%37 == 5 || strings.HasPrefix(j.Lane, "j") && i%11 == 3 {
+			if sampled[j.Lane] < 3 && (i%7 == 3 || j.I2 == -2) {
+				sampled[j.Lane]++
 				samples.Add(s)
 			}
 		}
 		for sig, v := range r.Viol {
-			if old, ok := best[sig]; !ok || v.Rank < old.Rank {
+			if old, ok := best[sig]; !ok || simpler(&v, &old) {
 				best[sig] = v
 			}
 		}
@@ -364,7 +419,26 @@ func main() {
 		sigs = append(sigs, s)
 	}
 	sort.Strings(sigs)
+	// Root-cause reduction: a failure of a cell is reported only if the same kind of failure does not already
+	// show in the base cell it is a variant of: the hprose client against the jsonrpc service codec's fallback
+	// path is a variant of the plain pair; every parameter-list / return-type shape is a variant of "exact".
+	derived := 0
 	for _, s := range sigs {
+		base := strings.TrimSuffix(s, "|svc=jsonrpc-fallback")
+		covered := false
+		if _, ok := best[base]; ok && base != s {
+			covered = true
+		}
+		if f := strings.Split(base, "|"); len(f) == 5 && (f[2] == "args" || f[2] == "result") && f[3] != "exact" {
+			f[3] = "exact"
+			if _, ok := best[strings.Join(f, "|")]; ok {
+				covered = true
+			}
+		}
+		if covered {
+			derived++
+			continue
+		}
 		v := best[s]
 		sig := s
 		if v.Job == nil && !v.Case.Cfg.isDefault() {
@@ -388,12 +462,14 @@ func main() {
 	run.Set("skipped_outside_statement_under_settings", skipped)
 	run.Set("count_mismatch_cases_checked_for_no_panic_only", noValue)
 	run.Set("jobs", len(jobs))
+	run.Set("violations_derived_from_base_cell", derived)
 	run.Set("space", map[string]interface{}{
 		"hprose_value_alphabet": len(hact), "hprose_types": len(htypes), "json_value_alphabet": len(jact), "json_types": len(jtypes),
 		"list_lengths": "0..3", "request_shapes": reqShapes, "response_shapes": respShapes, "header_sets": hdrNames,
-		"method_names": len(names), "errors": len(errCases), "decoder_settings": len(allSettings),
+		"header_crossing": "lists of <= 2 values: all header sets; lists of 3 values: none, shared-with-args, preset-simple (thorough: all); non-default settings: none and typed (lists of 3 values, in the quick tier also of 2 values: none); method-name lane: all (quick tier, lists of 2 values: none, shared-with-args)",
+		"method_names":    len(names), "errors": len(errCases), "decoder_settings": len(allSettings),
 		"settings_crossing": "all 120 LongType x RealType x MapType x StructType x ListType combinations of the decoding side for: lists of <= 2 values in shapes with interface{} destinations (thorough: also lists of 3 quick-alphabet values), lists of <= 1 value in every shape with the typed header set, every error; defaults elsewhere",
-		"modes":             "request: client Simple x header set; response: service Simple x client Simple x Debug x header set; errors: additionally x all settings; hprose client against the jsonrpc service codec (fallback path) for lists of <= 1 value",
+		"modes":             "request: client Simple x header set; response: service Simple x header set x (client Simple x Debug for lists of <= 2 values); errors: service Simple x client Simple x Debug x header set x all settings; hprose client against the jsonrpc service codec (fallback path) for lists of <= 1 value and every error",
 	})
 	run.Assumption("scope hypothesis: argument/result lists of at most 3 values drawn from a reduced alphabet of 12 representative C01 types (9 JSON types); value-level coverage of the serializer is C01's job")
 	run.Assumption("a count mismatch between results and declared return types is only required not to panic (prefix compared, missing results are zero values as in the repository's own codec test); a single list-valued result read into several return types is ambiguous on the wire")
